@@ -54,7 +54,7 @@ def run_trace(spec, name, params, items, base, ctx=None):
                 else:
                     det.update(X)
         except ValueError as e:
-            if (name == "CUSUM" and "Standard deviation is 0" in str(e)) or (name == "PCACD" and "bandwidth" in str(e)):
+            if cat.is_domain_end(name, det, e):
                 break
             raise
         states.append(det.drift_state)
